@@ -167,6 +167,12 @@ def curated_core(rng, with_tokens=True):
     gs.append(mk_grammar("u1", [("P0", seq(grp("star", cap("H", "unions", {"op": "union", "u": "U0"})), grp("opt", cap("R", "strings", ref("Ident")))), [F("H", "unions", "U0"), F("R", "strings")]),
                                  ("P1", seq(lit("("), cap("X", "strings", ref("Ident")), cap("X", "strings", ref("Ident")), lit(")")), [F("X", "strings")]),
                                  ("P2", seq(lit("("), cap("Y", "string", ref("Ident")), lit("!")), [F("Y", "string")])], unions={"U0": ["P1", "P2"]}, ks=(0, 1, 2, 3, -1)))
+    # a suffix modifier directly after a bracket group ({ x }!  [ x ]+ - rendered with the bracket spellings)
+    GG.BRACKETS[0] = True
+    try:
+        gs.append(mk_grammar("b0", [("P0", seq(grp("nonempty", grp("star", cap("A", "strings", ref("Ident")))), lit("!"), grp("plus", grp("opt", cap("B", "strings", ref("Int")))), grp("opt", grp("star", lit("(")))), [F("A", "strings"), F("B", "strings")])], ks=(0, 1, -1)))
+    finally:
+        GG.BRACKETS[0] = False
     # explicit EOF
     gs.append(mk_grammar("e0", [("P0", seq(grp("plus", cap("W", "strings", ref("Ident"))), grp("once", alt(lit(";"), ref("EOF")))), [F("W", "strings")])], trailing=True))
     gs.append(mk_grammar("e1", [("P0", seq(cap("A", "string", ref("Ident")), grp("opt", cap("B", "strings", ref("Int"))), grp("once", alt(seq(lit("!"), ref("EOF")), ref("EOF"), lit("(")))), [F("A", "string"), F("B", "strings")])], trailing=True, ks=(0, 1, -1)))
